@@ -533,4 +533,882 @@ theorem loopStopP_triple {R : St → Prop} (hR : Stable R) : Triple R loopStopP 
         refine Triple.bind (Q := fun _ => R) (ctxDeregisterP_triple hR) fun _ => Triple.retR _ (fun _ h => h)
       · intro _; exact Triple.retR _ (fun _ h => h)
 
+
+theorem quiet_consumeOneshot (m : ModId) (md : Mod) (msg : Msg) : Quiet (fun s => consumeOneshot s m md msg) := by
+  apply Quiet.pointwise0
+  intro s
+  unfold consumeOneshot
+  split
+  · split
+    · split
+      · exact ⟨_, quiet_removeSrc m _, rfl⟩
+      · exact ⟨_, Quiet.id, rfl⟩
+    · exact ⟨_, Quiet.id, rfl⟩
+  · exact ⟨_, Quiet.id, rfl⟩
+
+/-- one entry of a poll batch -/
+theorem recvOneP_triple {R : St → Prop} (hR : Stable R) (p : PollEnt) : Triple R (recvOneP p) (fun _ => R) := by
+  unfold recvOneP
+  refine Triple.bind Triple.get fun s => ?_
+  cases p with
+  | bad t =>
+    simp only
+    refine Triple.bind (Q := fun _ => R) ?_ fun _ => Triple.retR _ (fun _ h => h)
+    exact Triple.weaken (Triple.quietS hR _ (quiet_emit _)) (fun _ _ h => h.2) (fun _ _ _ h => h)
+  | tick =>
+    simp only
+    cases s.ctx with
+    | none => exact Triple.retR _ (fun _ h => h.2)
+    | some c =>
+      simp only
+      apply Triple.ite
+      · intro _; exact Triple.retR _ (fun _ h => h.2)
+      · intro _
+        refine Triple.bind (Q := fun _ => R) ?_ fun _ => Triple.retR _ (fun _ h => h)
+        exact Triple.weaken (Triple.quietS hR _ (quiet_tellSystem _ _ _ _)) (fun _ _ h => h.2) (fun _ _ _ h => h)
+  | src i =>
+    simp only
+    cases s.srcs[i]? with
+    | none => exact Triple.retR _ (fun _ h => h.2)
+    | some x =>
+      simp only
+      apply Triple.ite
+      · intro _; exact Triple.retR _ (fun _ h => h.2)
+      · intro _
+        refine Triple.bind (Q := fun _ => R) ?_ fun _ => ?_
+        · exact Triple.weaken (Triple.quietS hR _ (Quiet.ite _ (quiet_removeSrc _ _) Quiet.id)) (fun _ _ h => h.2) (fun _ _ _ h => h)
+        refine Triple.bind (Q := fun _ => R) (pushEvtP_triple hR _ _) fun _ => Triple.retR _ (fun _ h => h)
+  | ps m =>
+    simp only
+    cases s.mods[m]? with
+    | none => exact Triple.retR _ (fun _ h => h.2)
+    | some md =>
+      simp only
+      apply Triple.ite
+      · intro _; exact Triple.retR _ (fun _ h => h.2)
+      · intro _
+        cases md.pipe with
+        | none => exact Triple.retR _ (fun _ h => h.2)
+        | some q =>
+          cases q with
+          | nil => exact Triple.retR _ (fun _ h => h.2)
+          | cons msg rest =>
+            simp only
+            refine Triple.bind (Q := fun _ => R) ?_ fun _ => ?_
+            · exact Triple.weaken (Triple.quietS hR _ (quiet_updMod m (fun md => { md with pipe := some rest }) (fun md => rfl)))
+                (fun _ _ h => h.2) (fun _ _ _ h => h)
+            refine Triple.bind (Q := fun _ => R) (Triple.quietS hR _ (quiet_consumeOneshot m md msg)) fun _ => ?_
+            apply Triple.ite
+            · intro _
+              refine Triple.bind Triple.get fun s1 => ?_
+              refine Triple.bind (Q := fun _ => R) ?_ fun _ => ?_
+              · exact Triple.weaken (Triple.quietS hR _ (quiet_destroyMsg msg)) (fun _ _ h => h.2) (fun _ _ _ h => h)
+              refine Triple.bind (Q := fun _ => R) (Triple.quietS hR _ (quiet_updMod m (fun md => { md with batch := [] }) (fun md => rfl))) fun _ => ?_
+              refine Triple.bind (Q := fun _ => R) (callPubsubCb_triple hR _ _) fun _ => ?_
+              refine Triple.bind Triple.get fun s2 => ?_
+              apply Triple.ite
+              · intro hrp
+                refine Triple.bind (Q := fun _ => R) ?_ fun _ => Triple.retR _ (fun _ h => h)
+                refine Triple.weaken (stopP_triple hR m true false) ?_ (fun _ _ _ h => h.1)
+                intro st _ ⟨he, hr⟩
+                subst he
+                obtain ⟨g, hg, hs⟩ := sig_of_isRP _ m hrp
+                refine ⟨hr, g, hg, ?_, fun h => by cases h⟩
+                rcases hs with h | h <;> (rw [h]; decide)
+              · intro _; exact Triple.retR _ (fun _ h => h.2)
+            · intro _
+              refine Triple.bind (Q := fun _ => R) (pushEvtP_triple hR _ _) fun _ => Triple.retR _ (fun _ h => h)
+
+theorem recvBatchP_triple {R : St → Prop} (hR : Stable R) : ∀ (l : List PollEnt) (n : Nat), Triple R (recvBatchP l n) (fun _ => R) := by
+  intro l
+  induction l with
+  | nil => intro n; unfold recvBatchP; exact Triple.retR _ (fun _ h => h)
+  | cons p ps ih =>
+    intro n
+    unfold recvBatchP
+    refine Triple.bind (Q := fun _ => R) (recvOneP_triple hR p) fun k => ?_
+    apply Triple.ite
+    · intro _; exact Triple.retR _ (fun _ h => h)
+    · intro _; exact ih _
+
+theorem recvEventsP_triple {R : St → Prop} (hR : Stable R) (b : List PollEnt) : Triple R (recvEventsP b) (fun _ => R) := by
+  unfold recvEventsP
+  refine Triple.bind (Q := fun _ => R) (recvBatchP_triple hR b 0) fun r => ?_
+  obtain ⟨recved, err⟩ := r
+  simp only
+  apply Triple.ite
+  · intro _; exact Triple.retR _ (fun _ h => h)
+  · intro _
+    apply Triple.ite
+    · intro _
+      refine Triple.bind (Q := fun _ => R) (iterMods_triple _ (evaluateP_triple hR)) fun _ => ?_
+      refine Triple.bind (Q := fun _ => R) (Triple.updCtx hR _ (fun _ => rfl) (fun _ => rfl)) fun _ => ?_
+      exact Triple.retR _ (fun _ h => h)
+    · intro _; exact Triple.retR _ (fun _ h => h)
+
+theorem nextBatch_triple {R : St → Prop} (hR : Stable R) : Triple R nextBatch (fun _ => R) := by
+  unfold nextBatch
+  refine Triple.bind Triple.get fun s => ?_
+  cases hb : s.batches with
+  | nil =>
+    simp only
+    refine Triple.bind (Q := fun _ => R) ?_ fun _ => Triple.retR _ (fun _ h => h)
+    exact Triple.weaken (Triple.quietS hR _ (quiet_emit _)) (fun _ _ h => h.2) (fun _ _ _ h => h)
+  | cons b rest =>
+    simp only
+    refine Triple.bind (Q := fun _ => R) ?_ fun _ => ?_
+    · refine Triple.set _ fun st hI hp => ?_
+      obtain ⟨he, hr⟩ := hp
+      subst he
+      exact ⟨Inv.congr (s := s) rfl rfl rfl hI, fun _ hM => Mono.congr_right (s := s) rfl hM, hR.view s _ rfl hr⟩
+    apply Triple.ite
+    · intro _
+      refine Triple.bind (Q := fun _ => R) (Triple.updCtx hR _ (fun _ => rfl) (fun _ => rfl)) fun _ => Triple.retR _ (fun _ h => h)
+    · intro _; exact Triple.retR _ (fun _ h => h)
+
+theorem apiDispatch_triple {R : St → Prop} (hR : Stable R) : Triple R apiDispatch (fun _ => R) := by
+  unfold apiDispatch
+  refine Triple.bind Triple.get fun s => ?_
+  cases mctx s with
+  | none => exact Triple.retR _ (fun _ h => h.2)
+  | some c =>
+    simp only
+    apply Triple.ite
+    · intro _
+      apply Triple.ite
+      · intro _; exact Triple.retR _ (fun _ h => h.2)
+      · intro _; exact Triple.weaken (loopStartP_triple hR) (fun _ _ h => h.2) (fun _ _ _ h => h)
+    · intro _
+      apply Triple.ite
+      · intro _; exact Triple.weaken (loopStopP_triple hR) (fun _ _ h => h.2) (fun _ _ _ h => h)
+      · intro _
+        refine Triple.bind (Q := fun _ => R) ?_ fun b => recvEventsP_triple hR b
+        exact Triple.weaken (nextBatch_triple hR) (fun _ _ h => h.2) (fun _ _ _ h => h)
+
+theorem loopBody_triple {R : St → Prop} (hR : Stable R) : ∀ n, Triple R (loopBody n) (fun _ => R) := by
+  intro n
+  induction n with
+  | zero => unfold loopBody; exact Triple.retR _ (fun _ h => h)
+  | succ n ih =>
+    unfold loopBody
+    refine Triple.bind Triple.get fun s => ?_
+    cases s.ctx with
+    | none => exact Triple.retR _ (fun _ h => h.2)
+    | some c =>
+      simp only
+      apply Triple.ite
+      · intro _
+        refine Triple.bind (Q := fun _ => R) ?_ fun b => ?_
+        · exact Triple.weaken (nextBatch_triple hR) (fun _ _ h => h.2) (fun _ _ _ h => h)
+        refine Triple.bind (Q := fun _ => R) (recvEventsP_triple hR b) fun _ => ih
+      · intro _; exact Triple.retR _ (fun _ h => h.2)
+
+theorem apiLoop_triple {R : St → Prop} (hR : Stable R) : Triple R apiLoop (fun _ => R) := by
+  unfold apiLoop
+  refine Triple.bind Triple.get fun s => ?_
+  cases mctx s with
+  | none => exact Triple.retR _ (fun _ h => h.2)
+  | some c =>
+    simp only
+    apply Triple.ite
+    · intro _; exact Triple.retR _ (fun _ h => h.2)
+    · intro _
+      apply Triple.ite
+      · intro _; exact Triple.retR _ (fun _ h => h.2)
+      · intro _
+        refine Triple.bind (Q := fun _ => R) ?_ fun _ => ?_
+        · exact Triple.weaken (loopStartP_triple hR) (fun _ _ h => h.2) (fun _ _ _ h => h)
+        refine Triple.bind Triple.get fun s' => ?_
+        refine Triple.bind (Q := fun _ => R) ?_ fun _ => loopStopP_triple hR
+        exact Triple.weaken (loopBody_triple hR _) (fun _ _ h => h.2) (fun _ _ _ h => h)
+
+
+/-! ## The public API programs -/
+
+theorem consumeToken_view (s s' : St) (m : ModId) (h : consumeToken s m = some s') :
+    s'.sigs = s.sigs ∧ s'.ctx = s.ctx ∧ s'.nextCtx = s.nextCtx := by
+  unfold consumeToken at h
+  cases hm : s.mods[m]? with
+  | none => simp [hm] at h
+  | some md =>
+    simp only [hm] at h
+    cases htb : md.tb with
+    | none => simp [htb] at h; subst h; exact ⟨rfl, rfl, rfl⟩
+    | some tb =>
+      simp only [htb] at h
+      by_cases h0 : tb.tokens = 0
+      · simp [h0] at h
+      · simp only [h0, if_false, Option.some.injEq] at h
+        subst h
+        exact ⟨updMod_sigs s m _ (fun _ => rfl), by simp, by simp⟩
+
+/-- setting the state to one obtained from the current one without touching the life-cycle view -/
+theorem Triple.setView {P : St → Prop} {R : St → Prop} (hR : Stable R) (x : St)
+    (h : ∀ s, P s → x.sigs = s.sigs ∧ x.ctx = s.ctx ∧ x.nextCtx = s.nextCtx) :
+    Triple (fun s => P s ∧ R s) (setSt x) (fun _ => R) :=
+  Triple.set x fun s hI hp =>
+    have hv := h s hp.1
+    ⟨Inv.congr hv.1 hv.2.1 hv.2.2 hI, fun _ hM => Mono.congr_right hv.1 hM, hR.view _ _ hv.1 hp.2⟩
+
+theorem modAssert_not_zombie (s : St) (m : ModId) (md : Mod) (hm : s.mods[m]? = some md) (h : modAssert s m = none) :
+    md.state ≠ .zombie := by
+  unfold modAssert at h
+  simp only [hm] at h
+  intro hz
+  simp [hz] at h
+
+/-- what the body of a guarded call may assume -/
+def Passed (m : ModId) (mask : Option (List MState)) : St → Prop :=
+  fun s => ∃ g : Sig, s.sigs[m]? = some g ∧ g.state ≠ .zombie ∧ ∀ l, mask = some l → g.state ∈ l
+
+theorem Passed.view (m mask) (s s' : St) (h : s'.sigs = s.sigs) (hp : Passed m mask s) : Passed m mask s' := by
+  unfold Passed; rw [h]; exact hp
+
+/-- `M_MOD_ASSERT…` + permission + state mask + token, then the body -/
+theorem guarded_triple {R : St → Prop} (hR : Stable R) (m : ModId) (deny : ModFlags → Bool) (mask : Option (List MState))
+    (tok : Bool) (body : Prog Int) (hbody : Triple (fun s => R s ∧ Passed m mask s) body (fun _ => R)) :
+    Triple R (guarded m deny mask tok body) (fun _ => R) := by
+  unfold guarded
+  refine Triple.bind Triple.get fun s => ?_
+  cases hma : modAssert s m with
+  | some e => exact Triple.retR _ (fun _ h => h.2)
+  | none =>
+    simp only
+    cases hmd : s.mods[m]? with
+    | none => exact Triple.retR _ (fun _ h => h.2)
+    | some md =>
+      simp only
+      apply Triple.ite
+      · intro _; exact Triple.retR _ (fun _ h => h.2)
+      · intro _
+        apply Triple.ite
+        · intro _; exact Triple.retR _ (fun _ h => h.2)
+        · intro hmask
+          have hpass : Passed m mask s := by
+            refine ⟨md.sig, sig_of_mod s m md hmd, modAssert_not_zombie s m md hmd hma, fun l hl => ?_⟩
+            subst hl
+            simp at hmask
+            exact hmask
+          apply Triple.ite
+          · intro _
+            cases hct : consumeToken s m with
+            | none => exact Triple.retR _ (fun _ h => h.2)
+            | some s' =>
+              simp only
+              have hv := consumeToken_view s s' m hct
+              refine Triple.bind (Q := fun _ st => R st ∧ Passed m mask st) ?_ fun _ => hbody
+              refine Triple.set s' fun st hI hp => ?_
+              obtain ⟨he, hr⟩ := hp
+              subst he
+              exact ⟨Inv.congr hv.1 hv.2.1 hv.2.2 hI, fun _ hM => Mono.congr_right hv.1 hM, hR.view _ _ hv.1 hr,
+                Passed.view m mask _ _ hv.1 hpass⟩
+          · intro _
+            refine Triple.weaken hbody ?_ (fun _ _ _ h => h)
+            intro st _ ⟨he, hr⟩
+            subst he
+            exact ⟨hr, hpass⟩
+
+theorem apiPause_triple {R : St → Prop} (hR : Stable R) (m : ModId) : Triple R (apiPause m) (fun _ => R) := by
+  unfold apiPause
+  refine guarded_triple hR m _ _ _ _ ?_
+  refine Triple.weaken (stopP_triple hR m false false) ?_ (fun _ _ _ h => h.1)
+  intro s hI ⟨hr, g, hg, hz, hmask⟩
+  have hrun : g.state = .running := by simpa using hmask _ rfl
+  refine ⟨hr, g, hg, hz, fun _ => ⟨?_, rfl⟩⟩
+  cases hin : g.inCtx with
+  | true => rfl
+  | false => rcases hI.out m g hg hin with h | h <;> (rw [hrun] at h; cases h)
+
+theorem apiResume_triple {R : St → Prop} (hR : Stable R) (m : ModId) : Triple R (apiResume m) (fun _ => R) := by
+  unfold apiResume
+  refine guarded_triple hR m _ _ _ _ ?_
+  refine Triple.weaken (startP_triple hR m false) ?_ (fun _ _ _ h => h)
+  intro s hI ⟨hr, g, hg, hz, hmask⟩
+  have hp : g.state = .paused := by simpa using hmask _ rfl
+  refine ⟨hr, g, hg, by rw [hp]; decide, hz, ?_⟩
+  cases hin : g.inCtx with
+  | true => rfl
+  | false => rcases hI.out m g hg hin with h | h <;> (rw [hp] at h; cases h)
+
+theorem apiStop_triple {R : St → Prop} (hR : Stable R) (m : ModId) : Triple R (apiStop m) (fun _ => R) := by
+  unfold apiStop
+  refine guarded_triple hR m _ _ _ _ ?_
+  refine Triple.weaken (stopP_triple hR m true false) ?_ (fun _ _ _ h => h.1)
+  intro s _ ⟨hr, g, hg, hz, _⟩
+  exact ⟨hr, g, hg, hz, fun h => by cases h⟩
+
+theorem sig_inCtx_of_modByName (s : St) (m : ModId) (n : String) (h : s.modByName n = some m) :
+    ∃ g : Sig, s.sigs[m]? = some g ∧ g.inCtx = true := by
+  unfold St.modByName at h
+  have hlt := List.findIdx?_eq_some_iff_getElem.mp h
+  obtain ⟨hl, hp, _⟩ := hlt
+  refine ⟨(s.mods[m]).sig, ?_, ?_⟩
+  · rw [sigs_getElem?]; simp [List.getElem?_eq_getElem hl]
+  · simp at hp; simp [Mod.sig, hp.1]
+
+theorem apiStart_triple {R : St → Prop} (hR : Stable R) (m : ModId) : Triple R (apiStart m) (fun _ => R) := by
+  unfold apiStart
+  refine Triple.bind Triple.get fun s => ?_
+  cases hma : modAssert s m with
+  | some e => exact Triple.retR _ (fun _ h => h.2)
+  | none =>
+    simp only
+    cases hmd : s.mods[m]? with
+    | none => exact Triple.retR _ (fun _ h => h.2)
+    | some md =>
+      simp only
+      apply Triple.ite
+      · intro _; exact Triple.retR _ (fun _ h => h.2)
+      · intro hst
+        apply Triple.ite
+        · intro _; exact Triple.retR _ (fun _ h => h.2)
+        · intro hby
+          have hby' : s.modByName md.name = some m := by simpa using hby
+          obtain ⟨g, hg, hin⟩ := sig_inCtx_of_modByName s m _ hby'
+          have hgm : g = md.sig := by rw [sig_of_mod s m md hmd] at hg; exact (Option.some.inj hg).symm
+          have hnr : g.state ≠ .running ∧ g.state ≠ .zombie := by
+            subst hgm
+            simp at hst
+            by_cases hi : md.state = .idle
+            · simp [Mod.sig, hi]
+            · simp [Mod.sig, hst hi]
+          cases hct : consumeToken s m with
+          | none => exact Triple.retR _ (fun _ h => h.2)
+          | some s' =>
+            simp only
+            have hv := consumeToken_view s s' m hct
+            refine Triple.bind (Q := fun _ st => R st ∧ ∃ g : Sig, st.sigs[m]? = some g ∧ g.state ≠ .running ∧ g.state ≠ .zombie ∧ g.inCtx = true) ?_
+              fun _ => startP_triple hR m true
+            refine Triple.set s' fun st hI hp => ?_
+            obtain ⟨he, hr⟩ := hp
+            subst he
+            exact ⟨Inv.congr hv.1 hv.2.1 hv.2.2 hI, fun _ hM => Mono.congr_right hv.1 hM, hR.view _ _ hv.1 hr,
+              g, by rw [hv.1]; exact hg, hnr.1, hnr.2, hin⟩
+
+
+theorem Triple.quietP {P R : St → Prop} (hR : Stable R) (g : St → St) (hg : Quiet g) :
+    Triple (fun s => P s ∧ R s) (Lm.Core.modify g) (fun _ => R) :=
+  Triple.weaken (Triple.quietS hR g hg) (fun _ _ h => h.2) (fun _ _ _ h => h)
+
+theorem Triple.retP {α} {P R : St → Prop} (x : α) : Triple (fun s => P s ∧ R s) (pure x : Prog α) (fun _ => R) :=
+  Triple.retR x (fun _ h => h.2)
+
+/-- a guarded call whose body is one quiet update followed by a result -/
+theorem guarded_quiet {R : St → Prop} (hR : Stable R) (m deny mask tok) (g : St → St) (hg : Quiet g) (r : Int) :
+    Triple R (guarded m deny mask tok (do Lm.Core.modify g; pure r)) (fun _ => R) := by
+  refine guarded_triple hR m deny mask tok _ ?_
+  refine Triple.bind (Q := fun _ => R) ?_ fun _ => Triple.retR _ (fun _ h => h)
+  exact Triple.weaken (Triple.quietS hR g hg) (fun _ _ h => h.1) (fun _ _ _ h => h)
+
+theorem apiBecome_triple {R : St → Prop} (hR : Stable R) (m : ModId) (h : Nat) : Triple R (apiBecome m h) (fun _ => R) := by
+  unfold apiBecome
+  refine guarded_quiet hR m _ _ _ _ ?_ 0
+  exact quiet_updMod m _ (fun md => rfl)
+
+theorem apiBatchSize_triple {R : St → Prop} (hR : Stable R) (m : ModId) (n : Nat) : Triple R (apiBatchSize m n) (fun _ => R) := by
+  unfold apiBatchSize
+  refine guarded_quiet hR m _ _ _ _ ?_ 0
+  exact quiet_updMod m _ (fun md => rfl)
+
+theorem apiUnbecome_triple {R : St → Prop} (hR : Stable R) (m : ModId) : Triple R (apiUnbecome m) (fun _ => R) := by
+  unfold apiUnbecome
+  refine guarded_triple hR m _ _ _ _ ?_
+  refine Triple.bind Triple.get fun s => ?_
+  cases s.mods[m]? with
+  | none => exact Triple.retR _ (fun _ h => h.2.1)
+  | some md =>
+    simp only
+    cases md.recvs with
+    | nil => exact Triple.retR _ (fun _ h => h.2.1)
+    | cons x rest =>
+      simp only
+      refine Triple.bind (Q := fun _ => R) ?_ fun _ => Triple.retR _ (fun _ h => h)
+      exact Triple.weaken (Triple.quietS hR _ (quiet_updMod m (fun md => { md with recvs := rest }) (fun md => rfl)))
+        (fun _ _ h => h.2.1) (fun _ _ _ h => h)
+
+theorem apiStash_triple {R : St → Prop} (hR : Stable R) (m : ModId) (e : Option Evt) : Triple R (apiStash m e) (fun _ => R) := by
+  unfold apiStash
+  refine guarded_triple hR m _ _ _ _ ?_
+  cases e with
+  | none => exact Triple.retR _ (fun _ h => h.1)
+  | some e =>
+    simp only
+    refine Triple.bind Triple.get fun s => ?_
+    cases hct : consumeToken s m with
+    | none => exact Triple.retR _ (fun _ h => h.2.1)
+    | some s' =>
+      simp only
+      have hv := consumeToken_view s s' m hct
+      refine Triple.bind (Q := fun _ => R) ?_ fun _ => ?_
+      · refine Triple.set s' fun st hI hp => ?_
+        obtain ⟨he, hr, _⟩ := hp
+        subst he
+        exact ⟨Inv.congr hv.1 hv.2.1 hv.2.2 hI, fun _ hM => Mono.congr_right hv.1 hM, hR.view _ _ hv.1 hr⟩
+      apply Triple.ite
+      · intro _; exact Triple.retR _ (fun _ h => h)
+      · intro _
+        refine Triple.bind (Q := fun _ => R) (Triple.quietS hR _ (quiet_updMod m (fun md => { md with stash := md.stash ++ [e] }) (fun md => rfl)))
+          fun _ => Triple.retR _ (fun _ h => h)
+
+theorem apiUnstash_triple {R : St → Prop} (hR : Stable R) (m : ModId) (n : Nat) : Triple R (apiUnstash m n) (fun _ => R) := by
+  unfold apiUnstash
+  refine guarded_triple hR m _ _ _ _ ?_
+  apply Triple.ite
+  · intro _; exact Triple.retR _ (fun _ h => h.1)
+  · intro _
+    refine Triple.bind Triple.get fun s => ?_
+    cases hct : consumeToken s m with
+    | none => exact Triple.retR _ (fun _ h => h.2.1)
+    | some s' =>
+      simp only
+      have hv := consumeToken_view s s' m hct
+      refine Triple.bind (Q := fun _ => R) ?_ fun _ => ?_
+      · refine Triple.set s' fun st hI hp => ?_
+        obtain ⟨he, hr, _⟩ := hp
+        subst he
+        exact ⟨Inv.congr hv.1 hv.2.1 hv.2.2 hI, fun _ hM => Mono.congr_right hv.1 hM, hR.view _ _ hv.1 hr⟩
+      cases s'.mods[m]? with
+      | none => exact Triple.retR _ (fun _ h => h)
+      | some md =>
+        simp only
+        refine Triple.bind (Q := fun _ => R) (Triple.quietS hR _ (quiet_updMod m (fun md => { md with stash := md.stash.drop n }) (fun md => rfl))) fun _ => ?_
+        refine Triple.bind (Q := fun _ => R) (callPubsubCb_triple hR _ _) fun _ => Triple.retR _ (fun _ h => h)
+
+theorem quiet_rmInternal (m ns role) : Quiet (fun s => rmInternal s m ns role) := by
+  apply Quiet.pointwise0
+  intro s
+  unfold rmInternal
+  split
+  · split
+    · exact ⟨_, quiet_removeSrc m _, rfl⟩
+    · exact ⟨_, Quiet.id, rfl⟩
+  · exact ⟨_, Quiet.id, rfl⟩
+
+theorem addSrc_view (s : St) (m : ModId) (x : Src) :
+    (addSrc s m x).1.sigs = s.sigs ∧ (addSrc s m x).1.ctx = s.ctx ∧ (addSrc s m x).1.nextCtx = s.nextCtx := by
+  unfold addSrc
+  split
+  · split
+    · exact ⟨rfl, rfl, rfl⟩
+    · exact ⟨rfl, rfl, rfl⟩
+  · split
+    · exact ⟨rfl, rfl, rfl⟩
+    · simp only
+      exact ⟨updMod_sigs _ m _ (fun _ => rfl), by simp, by simp⟩
+
+theorem apiBatchTimeout_triple {R : St → Prop} (hR : Stable R) (m : ModId) (ns : Nat) : Triple R (apiBatchTimeout m ns) (fun _ => R) := by
+  unfold apiBatchTimeout
+  refine guarded_triple hR m _ _ _ _ ?_
+  refine Triple.bind Triple.get fun s => ?_
+  cases s.mods[m]? with
+  | none => exact Triple.retR _ (fun _ h => h.2.1)
+  | some md =>
+    simp only
+    refine Triple.bind (Q := fun _ => R) ?_ fun _ => ?_
+    · exact Triple.weaken (Triple.quietS hR _ (quiet_rmInternal m _ _)) (fun _ _ h => h.2.1) (fun _ _ _ h => h)
+    refine Triple.bind (Q := fun _ => R) (Triple.quietS hR _ (quiet_updMod m (fun md => { md with batchTimer := ns }) (fun md => rfl))) fun _ => ?_
+    apply Triple.ite
+    · intro _
+      refine Triple.bind (Q := fun _ => R) (Triple.quietS hR _ (quiet_updMod m _ (fun md => by split <;> rfl))) fun _ => ?_
+      refine Triple.bind Triple.get fun s1 => ?_
+      have hv := addSrc_view s1 m { kind := .tmr, owner := m, key := ns, prio := .high, role := .batchTimer }
+      refine Triple.bind (Q := fun _ => R) ?_ fun _ => Triple.retR _ (fun _ h => h)
+      refine Triple.set _ fun st hI hp => ?_
+      obtain ⟨he, hr⟩ := hp
+      subst he
+      exact ⟨Inv.congr hv.1 hv.2.1 hv.2.2 hI, fun _ hM => Mono.congr_right hv.1 hM, hR.view _ _ hv.1 hr⟩
+    · intro _
+      refine Triple.bind (Q := fun _ => R) (Triple.quietS hR _ (quiet_updMod m _ (fun md => by split <;> rfl))) fun _ => ?_
+      exact Triple.retR _ (fun _ h => h)
+
+theorem apiTokenBucket_triple {R : St → Prop} (hR : Stable R) (m : ModId) (rate burst : Nat) :
+    Triple R (apiTokenBucket m rate burst) (fun _ => R) := by
+  unfold apiTokenBucket
+  refine guarded_triple hR m _ _ _ _ ?_
+  apply Triple.ite
+  · intro _; exact Triple.retR _ (fun _ h => h.1)
+  · intro _
+    refine Triple.bind Triple.get fun s => ?_
+    cases s.mods[m]? with
+    | none => exact Triple.retR _ (fun _ h => h.2.1)
+    | some md =>
+      simp only
+      refine Triple.bind (Q := fun _ => R) ?_ fun _ => ?_
+      · exact Triple.weaken (Triple.quietS hR _ (quiet_rmInternal m _ _)) (fun _ _ h => h.2.1) (fun _ _ _ h => h)
+      apply Triple.ite
+      · intro _
+        refine Triple.bind (Q := fun _ => R) (Triple.quietS hR _ (quiet_updMod m (fun md => { md with tb := none, tbTimer := 0 }) (fun md => rfl))) fun _ => ?_
+        exact Triple.retR _ (fun _ h => h)
+      · intro _
+        refine Triple.bind (Q := fun _ => R) (Triple.quietS hR _ (quiet_updMod m
+          (fun md => { md with tb := some { rate := rate, burst := burst, tokens := burst }, tbTimer := BILLION / rate }) (fun md => rfl))) fun _ => ?_
+        refine Triple.bind Triple.get fun s1 => ?_
+        have hv := addSrc_view s1 m { kind := .tmr, owner := m, key := BILLION / rate, prio := .high, role := .tbTimer }
+        refine Triple.bind (Q := fun _ => R) ?_ fun _ => Triple.retR _ (fun _ h => h)
+        refine Triple.set _ fun st hI hp => ?_
+        obtain ⟨he, hr⟩ := hp
+        subst he
+        exact ⟨Inv.congr hv.1 hv.2.1 hv.2.2 hI, fun _ hM => Mono.congr_right hv.1 hM, hR.view _ _ hv.1 hr⟩
+
+
+theorem apiTell_triple {R : St → Prop} (hR : Stable R) (m r : ModId) (p : Nat) (af : Bool) : Triple R (apiTell m r p af) (fun _ => R) := by
+  unfold apiTell
+  refine guarded_triple hR m _ _ _ _ ?_
+  refine Triple.bind Triple.get fun s => ?_
+  apply Triple.ite
+  · intro _; exact Triple.retR _ (fun _ h => h.2.1)
+  · intro _
+    cases hct : consumeToken s m with
+    | none => exact Triple.retR _ (fun _ h => h.2.1)
+    | some s' =>
+      simp only
+      have hv := consumeToken_view s s' m hct
+      refine Triple.bind (Q := fun _ => R) ?_ fun _ => ?_
+      · refine Triple.set s' fun st hI hp => ?_
+        obtain ⟨he, hr, _⟩ := hp
+        subst he
+        exact ⟨Inv.congr hv.1 hv.2.1 hv.2.2 hI, fun _ hM => Mono.congr_right hv.1 hM, hR.view _ _ hv.1 hr⟩
+      refine Triple.bind (Q := fun _ => R) (Triple.quietS hR _ (quiet_sendMsg _ _ _ _ _)) fun _ => Triple.retR _ (fun _ h => h)
+
+theorem apiPublish_triple {R : St → Prop} (hR : Stable R) (m : ModId) (t : Option String) (p : Nat) (af : Bool) :
+    Triple R (apiPublish m t p af) (fun _ => R) := by
+  unfold apiPublish
+  refine guarded_triple hR m _ _ _ _ ?_
+  apply Triple.ite
+  · intro _; exact Triple.retR _ (fun _ h => h.1)
+  · intro _
+    refine Triple.bind Triple.get fun s => ?_
+    cases hct : consumeToken s m with
+    | none => exact Triple.retR _ (fun _ h => h.2.1)
+    | some s' =>
+      simp only
+      have hv := consumeToken_view s s' m hct
+      refine Triple.bind (Q := fun _ => R) ?_ fun _ => ?_
+      · refine Triple.set s' fun st hI hp => ?_
+        obtain ⟨he, hr, _⟩ := hp
+        subst he
+        exact ⟨Inv.congr hv.1 hv.2.1 hv.2.2 hI, fun _ hM => Mono.congr_right hv.1 hM, hR.view _ _ hv.1 hr⟩
+      refine Triple.bind (Q := fun _ => R) (Triple.quietS hR _ (quiet_sendMsg _ _ _ _ _)) fun _ => Triple.retR _ (fun _ h => h)
+
+theorem apiPill_triple {R : St → Prop} (hR : Stable R) (m r : ModId) : Triple R (apiPill m r) (fun _ => R) := by
+  unfold apiPill
+  refine guarded_triple hR m _ _ _ _ ?_
+  refine Triple.bind Triple.get fun s => ?_
+  apply Triple.ite
+  · intro _; exact Triple.retR _ (fun _ h => h.2.1)
+  · intro _
+    apply Triple.ite
+    · intro _; exact Triple.retR _ (fun _ h => h.2.1)
+    · intro _
+      cases hct : consumeToken s m with
+      | none => exact Triple.retR _ (fun _ h => h.2.1)
+      | some s' =>
+        simp only
+        have hv := consumeToken_view s s' m hct
+        refine Triple.bind (Q := fun _ => R) ?_ fun _ => ?_
+        · refine Triple.set s' fun st hI hp => ?_
+          obtain ⟨he, hr, _⟩ := hp
+          subst he
+          exact ⟨Inv.congr hv.1 hv.2.1 hv.2.2 hI, fun _ hM => Mono.congr_right hv.1 hM, hR.view _ _ hv.1 hr⟩
+        refine Triple.bind (Q := fun _ => R) (Triple.quietS hR _ (quiet_tellSystem _ _ _ _)) fun _ => Triple.retR _ (fun _ h => h)
+
+theorem quiet_addSub (m : ModId) (x : Src) : Quiet (fun s => addSub s m x) := by
+  apply Quiet.pointwise0
+  intro s
+  unfold addSub
+  exact ⟨fun s0 => ({ s0 with srcs := s0.srcs ++ [x] } : St).updMod m (fun md => { md with subs := md.subs ++ [s.srcs.length] }),
+    Quiet.comp (quiet_updMod m (fun md => { md with subs := md.subs ++ [s.srcs.length] }) (fun md => rfl))
+      (g := fun s0 => s0.updMod m (fun md => { md with subs := md.subs ++ [s.srcs.length] }))
+      (h := fun s0 => ({ s0 with srcs := s0.srcs ++ [x] } : St))
+      ⟨fun _ => rfl, fun _ => rfl, fun _ => rfl, fun _ => rfl, fun _ => rfl⟩, rfl⟩
+
+theorem apiSubscribe_triple {R : St → Prop} (hR : Stable R) (m : ModId) (t : String) (sl : Nat) (p : Option Prio) (pb : Nat)
+    (os : Bool) (u : Nat) : Triple R (apiSubscribe m t sl p pb os u) (fun _ => R) := by
+  unfold apiSubscribe
+  refine guarded_triple hR m _ _ _ _ ?_
+  apply Triple.ite
+  · intro _; exact Triple.retR _ (fun _ h => h.1)
+  · intro _
+    refine Triple.bind Triple.get fun s => ?_
+    cases hct : consumeToken s m with
+    | none => exact Triple.retR _ (fun _ h => h.2.1)
+    | some s' =>
+      simp only
+      have hv := consumeToken_view s s' m hct
+      refine Triple.bind (Q := fun _ => R) ?_ fun _ => ?_
+      · refine Triple.set s' fun st hI hp => ?_
+        obtain ⟨he, hr, _⟩ := hp
+        subst he
+        exact ⟨Inv.congr hv.1 hv.2.1 hv.2.2 hI, fun _ hM => Mono.congr_right hv.1 hM, hR.view _ _ hv.1 hr⟩
+      cases s'.mods[m]? with
+      | none => exact Triple.retR _ (fun _ h => h)
+      | some md =>
+        simp only
+        split
+        · refine Triple.bind (Q := fun _ => R) (Triple.quietS hR _ (quiet_updSrc _ _)) fun _ => Triple.retR _ (fun _ h => h)
+        · refine Triple.bind (Q := fun _ => R) (Triple.quietS hR _ (quiet_addSub m _)) fun _ => Triple.retR _ (fun _ h => h)
+
+theorem apiUnsubscribe_triple {R : St → Prop} (hR : Stable R) (m : ModId) (t : String) : Triple R (apiUnsubscribe m t) (fun _ => R) := by
+  unfold apiUnsubscribe
+  refine guarded_triple hR m _ _ _ _ ?_
+  refine Triple.bind Triple.get fun s => ?_
+  cases s.mods[m]? with
+  | none => exact Triple.retR _ (fun _ h => h.2.1)
+  | some md =>
+    simp only
+    apply Triple.ite
+    · intro _; exact Triple.retR _ (fun _ h => h.2.1)
+    · intro _
+      split
+      · refine Triple.bind (Q := fun _ => R) ?_ fun _ => Triple.retR _ (fun _ h => h)
+        exact Triple.weaken (Triple.quietS hR _ (quiet_removeSrc m _)) (fun _ _ h => h.2.1) (fun _ _ _ h => h)
+      · exact Triple.retR _ (fun _ h => h.2.1)
+
+theorem apiRegSrc_triple {R : St → Prop} (hR : Stable R) (m : ModId) (ok : Bool) (x : Src) (pb : Nat) :
+    Triple R (apiRegSrc m ok x pb) (fun _ => R) := by
+  unfold apiRegSrc
+  apply Triple.ite
+  · intro _; exact Triple.retR _ (fun _ h => h)
+  · intro _
+    refine guarded_triple hR m _ _ _ _ ?_
+    apply Triple.ite
+    · intro _; exact Triple.retR _ (fun _ h => h.1)
+    · intro _
+      refine Triple.bind Triple.get fun s => ?_
+      have hv := addSrc_view s m x
+      refine Triple.bind (Q := fun _ => R) ?_ fun _ => Triple.retR _ (fun _ h => h)
+      refine Triple.set _ fun st hI hp => ?_
+      obtain ⟨he, hr, _⟩ := hp
+      subst he
+      exact ⟨Inv.congr hv.1 hv.2.1 hv.2.2 hI, fun _ hM => Mono.congr_right hv.1 hM, hR.view _ _ hv.1 hr⟩
+
+theorem apiDeregSrc_triple {R : St → Prop} (hR : Stable R) (m : ModId) (ok : Bool) (k : SrcKind) (key : Nat) :
+    Triple R (apiDeregSrc m ok k key) (fun _ => R) := by
+  unfold apiDeregSrc
+  apply Triple.ite
+  · intro _; exact Triple.retR _ (fun _ h => h)
+  · intro _
+    apply Triple.ite
+    · intro _; exact Triple.retR _ (fun _ h => h)
+    · intro _
+      refine guarded_triple hR m _ _ _ _ ?_
+      refine Triple.bind Triple.get fun s => ?_
+      cases s.mods[m]? with
+      | none => exact Triple.retR _ (fun _ h => h.2.1)
+      | some md =>
+        simp only
+        apply Triple.ite
+        · intro _; exact Triple.retR _ (fun _ h => h.2.1)
+        · intro _
+          split
+          · refine Triple.bind (Q := fun _ => R) ?_ fun _ => Triple.retR _ (fun _ h => h)
+            exact Triple.weaken (Triple.quietS hR _ (quiet_removeSrc m _)) (fun _ _ h => h.2.1) (fun _ _ _ h => h)
+          · exact Triple.retR _ (fun _ h => h.2.1)
+
+theorem apiSrcLen_triple {R : St → Prop} (hR : Stable R) (m : ModId) : Triple R (apiSrcLen m) (fun _ => R) := by
+  unfold apiSrcLen
+  refine guarded_triple hR m _ _ _ _ ?_
+  refine Triple.bind Triple.get fun s => ?_
+  cases s.mods[m]? with
+  | none => exact Triple.retR _ (fun _ h => h.2.1)
+  | some md => exact Triple.retR _ (fun _ h => h.2.1)
+
+
+theorem modByName_none_free (s : St) (n : String) (h : s.modByName n = none) :
+    ∀ (k : Nat) (g : Sig), s.sigs[k]? = some g → g.inCtx = true → g.name ≠ n := by
+  intro k g hk hin hname
+  unfold St.modByName at h
+  rw [List.findIdx?_eq_none_iff] at h
+  rw [sigs_getElem?] at hk
+  cases hm : s.mods[k]? with
+  | none => simp [hm] at hk
+  | some md =>
+    simp [hm] at hk
+    subst hk
+    have := h md (List.mem_of_getElem? hm)
+    simp [Mod.sig] at hin hname
+    simp [hin, hname] at this
+
+theorem apiRegister_triple {R : St → Prop} (hR : Stable R) (name : String) (slot : Nat) (flags : ModFlags) (hooks : Hooks) :
+    Triple R (apiRegister name slot flags hooks) (fun _ => R) := by
+  unfold apiRegister
+  apply Triple.ite
+  · intro _; exact Triple.retR _ (fun _ h => h)
+  · intro _
+    refine Triple.bind Triple.get fun s => ?_
+    cases mctx s with
+    | none => exact Triple.retR _ (fun _ h => h.2)
+    | some c =>
+      simp only
+      apply Triple.ite
+      · intro _; exact Triple.retR _ (fun _ h => h.2)
+      · intro _
+        -- the final step: append the module if its name is (still) free
+        have hgo : Triple R (do
+            let s ← getSt
+            if (s.modByName name).isSome then pure (-12)
+            else match s.ctx with
+              | some c' =>
+                if c'.id == c.id then do
+                  Lm.Core.modify fun s => { s with mods := s.mods ++ [{ name := name, slot := slot, ctxId := c'.id, flags := flags, hooks := hooks }] }
+                  pure 0
+                else do Lm.Core.modify fun s => s.emit (.note "CTX-CHANGED-DURING-REGISTER"); pure (-12)
+              | none => do Lm.Core.modify fun s => s.emit (.note "CTX-CHANGED-DURING-REGISTER"); pure (-12) : Prog Int) (fun _ => R) := by
+          refine Triple.bind Triple.get fun s1 => ?_
+          apply Triple.ite
+          · intro _; exact Triple.retR _ (fun _ h => h.2)
+          · intro hfree
+            cases hc1 : s1.ctx with
+            | none =>
+              simp only
+              refine Triple.bind (Q := fun _ => R) ?_ fun _ => Triple.retR _ (fun _ h => h)
+              exact Triple.weaken (Triple.quietS hR _ (quiet_emit _)) (fun _ _ h => h.2) (fun _ _ _ h => h)
+            | some c' =>
+              simp only
+              apply Triple.ite
+              · intro _
+                refine Triple.bind (Q := fun _ => R) ?_ fun _ => Triple.retR _ (fun _ h => h)
+                refine Triple.mod _ fun st hI hp => ?_
+                obtain ⟨he, hr⟩ := hp
+                subst he
+                have hn : s1.modByName name = none := by
+                  cases h : s1.modByName name with
+                  | none => rfl
+                  | some _ => simp [h] at hfree
+                have hmono : Mono s1 { s1 with mods := s1.mods ++ [{ name := name, slot := slot, ctxId := c'.id, flags := flags, hooks := hooks }] } :=
+                  Mono_append s1 s1 _ (Mono.refl s1)
+                exact ⟨inv_append s1 _ c' hI hc1 rfl rfl rfl (modByName_none_free s1 name hn),
+                  fun _ hM => Mono.trans hM hmono, hR.mono _ _ hmono hr⟩
+              · intro _
+                refine Triple.bind (Q := fun _ => R) ?_ fun _ => Triple.retR _ (fun _ h => h)
+                exact Triple.weaken (Triple.quietS hR _ (quiet_emit _)) (fun _ _ h => h.2) (fun _ _ _ h => h)
+        cases s.modByName name with
+        | none => exact Triple.weaken hgo (fun _ _ h => h.2) (fun _ _ _ h => h)
+        | some old =>
+          simp only
+          cases s.mods[old]? with
+          | none => exact Triple.weaken hgo (fun _ _ h => h.2) (fun _ _ _ h => h)
+          | some omd =>
+            simp only
+            apply Triple.ite
+            · intro _; exact Triple.retR _ (fun _ h => h.2)
+            · intro _
+              refine Triple.bind (Q := fun _ => R) ?_ fun _ => ?_
+              · exact Triple.weaken (Triple.updCtx hR _ (fun _ => rfl) (fun _ => rfl)) (fun _ _ h => h.2) (fun _ _ _ h => h)
+              refine Triple.bind (Q := fun _ => R) (modDeregCore_triple hR _ (Triple.retR _ (fun _ h => h)) old) fun r => ?_
+              refine Triple.bind (Q := fun _ => R) (Triple.updCtx hR _ (fun _ => rfl) (fun _ => rfl)) fun _ => ?_
+              apply Triple.ite
+              · intro _; exact Triple.retR _ (fun _ h => h)
+              · intro _; exact hgo
+
+theorem apiCtxRegister_triple {R : St → Prop} (hR : Stable R) (persist : Bool) : Triple R (apiCtxRegister persist) (fun _ => R) := by
+  unfold apiCtxRegister
+  refine Triple.bind Triple.get fun s => ?_
+  cases hc : s.ctx with
+  | some c => exact Triple.retR _ (fun _ h => h.2)
+  | none =>
+    simp only
+    refine Triple.bind (Q := fun _ => R) ?_ fun _ => Triple.retR _ (fun _ h => h)
+    refine Triple.set _ fun st hI hp => ?_
+    obtain ⟨he, hr⟩ := hp
+    subst he
+    exact ⟨inv_ctx_new s { persist := persist, id := s.nextCtx } hI rfl rfl, fun _ hM => Mono.congr_right (s := s) rfl hM,
+      hR.view s _ rfl hr⟩
+
+theorem ctxUpd_triple {R : St → Prop} (hR : Stable R) (f : Ctx → Ctx) (hid : ∀ c, (f c).id = c.id) (hrun : ∀ c, (f c).running = c.running)
+    (r : Int) {P : St → Prop} : Triple (fun s => P s ∧ R s) (do Lm.Core.modify (fun s => s.updCtx f); pure r) (fun _ => R) :=
+  Triple.bind (Q := fun _ => R) (Triple.weaken (Triple.updCtx hR f hid hrun) (fun _ _ h => h.2) (fun _ _ _ h => h))
+    fun _ => Triple.retR _ (fun _ h => h)
+
+theorem apiQuit_triple {R : St → Prop} (hR : Stable R) (code : Nat) : Triple R (apiQuit code) (fun _ => R) := by
+  unfold apiQuit
+  refine Triple.bind Triple.get fun s => ?_
+  cases mctx s with
+  | none => exact Triple.retR _ (fun _ h => h.2)
+  | some c =>
+    simp only
+    apply Triple.ite
+    · intro _; exact Triple.retR _ (fun _ h => h.2)
+    · intro _
+      refine ctxUpd_triple hR _ ?_ ?_ 0 <;> (intro _; rfl)
+
+theorem apiFinalize_triple {R : St → Prop} (hR : Stable R) : Triple R apiFinalize (fun _ => R) := by
+  unfold apiFinalize
+  refine Triple.bind Triple.get fun s => ?_
+  cases mctx s with
+  | none => exact Triple.retR _ (fun _ h => h.2)
+  | some c =>
+    simp only
+    refine ctxUpd_triple hR _ ?_ ?_ 0 <;> (intro _; rfl)
+
+theorem apiCtxLen_triple {R : St → Prop} (hR : Stable R) : Triple R apiCtxLen (fun _ => R) := by
+  unfold apiCtxLen
+  refine Triple.bind Triple.get fun s => ?_
+  cases mctx s with
+  | none => exact Triple.retR _ (fun _ h => h.2)
+  | some c => exact Triple.retR _ (fun _ h => h.2)
+
+theorem apiSetTick_triple {R : St → Prop} (hR : Stable R) (ns : Nat) : Triple R (apiSetTick ns) (fun _ => R) := by
+  unfold apiSetTick
+  refine Triple.bind Triple.get fun s => ?_
+  cases mctx s with
+  | none => exact Triple.retR _ (fun _ h => h.2)
+  | some c =>
+    simp only
+    refine ctxUpd_triple hR _ ?_ ?_ 0 <;> (intro _; rfl)
+
+/-- every API line of the machine -/
+theorem apiProg_triple (c : Cfg) (op : Op) : Triple (fun _ => True) (apiProg c op) (fun _ _ => True) := by
+  have hR := Stable.true
+  cases op with
+  | ctxReg p => exact apiCtxRegister_triple hR p
+  | ctxDereg => exact ctxDeregisterP_triple hR
+  | finalize => exact apiFinalize_triple hR
+  | dispatch => exact apiDispatch_triple hR
+  | loop => exact apiLoop_triple hR
+  | quit code => exact apiQuit_triple hR code
+  | ctxLen => exact apiCtxLen_triple hR
+  | setTick ns => exact apiSetTick_triple hR ns
+  | reg h name slot flags hooks =>
+    simp only [apiProg]
+    refine Triple.bind (Q := fun _ _ => True) (apiRegister_triple hR name slot flags hooks) fun r => ?_
+    refine Triple.bind (Q := fun _ _ => True) ?_ fun _ => Triple.retR _ (fun _ h => h)
+    refine Triple.mod _ fun s hI _ => ?_
+    by_cases h0 : (r == 0) = true
+    · simp only [h0, if_true]
+      exact ⟨Inv.congr (s := s) rfl rfl rfl hI, fun _ hM => Mono.congr_right (s := s) rfl hM, trivial⟩
+    · simp only [h0]
+      exact ⟨hI, fun _ hM => hM, trivial⟩
+  | dereg m => exact modDeregisterP_triple hR m
+  | start m => exact apiStart_triple hR m
+  | pause m => exact apiPause_triple hR m
+  | resume m => exact apiResume_triple hR m
+  | stop m => exact apiStop_triple hR m
+  | become m h => exact apiBecome_triple hR m h
+  | unbecome m => exact apiUnbecome_triple hR m
+  | stash m idx => exact apiStash_triple hR m _
+  | unstash m n => exact apiUnstash_triple hR m n
+  | batchSize m n => exact apiBatchSize_triple hR m n
+  | batchTimeout m ns => exact apiBatchTimeout_triple hR m ns
+  | tokenBucket m r b => exact apiTokenBucket_triple hR m r b
+  | tell m r p af => exact apiTell_triple hR m r p af
+  | publish m t p af => exact apiPublish_triple hR m t p af
+  | pill m r => exact apiPill_triple hR m r
+  | subscribe m t sl p pb os u => exact apiSubscribe_triple hR m t sl p pb os u
+  | unsubscribe m t => exact apiUnsubscribe_triple hR m t
+  | regSrc m ok x pb => exact apiRegSrc_triple hR m ok x pb
+  | deregSrc m ok k key => exact apiDeregSrc_triple hR m ok k key
+  | srcLen m => exact apiSrcLen_triple hR m
+  | errno e => exact Triple.retR _ (fun _ h => h)
+  | ret b => exact Triple.retR _ (fun _ h => h)
+
+theorem apiProg_safe (c : Cfg) (op : Op) : SafeA Inv Mono (apiProg c op) := by
+  intro s hI
+  exact wpA_mono _ _ _ _ _ _ _ (fun _ s' h => ⟨h.1, h.2.1⟩) (apiProg_triple c op s s hI (Mono.refl s) trivial)
+
+/-- **Every configuration reachable by any sequence of script lines** — API calls from outside and
+from inside callbacks at any depth, any callback return values — satisfies the invariants. -/
+theorem reach_inv (ops : List Op) : CfgOK Inv Mono (run {} ops) :=
+  reach_ok Inv Mono frameable apiProg_safe inv_init ops
+
 end Lm.Core
